@@ -36,6 +36,7 @@ type flowCase struct {
 	AutoRetry int         // --autoretry value
 	Timeout   time.Duration
 	Reattach  bool // run mrp a second time on the completed pipestance and re-check outs/
+	ForceVol  bool // mrp --overrides: force_volatile on the top-level pipeline, resource-only entries on half of the stage calls
 	Relocate  bool // after the interruption the top-level pipeline directory is moved elsewhere and replaced by a symlink
 	Template  int  // 0 = random program, k>0 = pgen.Template(k-1)
 }
@@ -198,6 +199,20 @@ func runFlowCase(c *vf.Ctx, fc *flowCase) *flowResult {
 		cores = 4
 	}
 	args := []string{"--vdrmode=" + fc.Vdr, fmt.Sprintf("--localcores=%d", cores), "--localmem=16", fmt.Sprintf("--autoretry=%d", fc.AutoRetry)}
+	if fc.ForceVol {
+		// every stage below the top-level pipeline inherits force_volatile from
+		// it, also those that have an entry of their own for resources only
+		ov := map[string]map[string]interface{}{p.Top.Callee: {"force_volatile": true}}
+		for k, cp := range vmon.StageCallPaths(p) {
+			if k%2 == 0 {
+				ov[strings.ReplaceAll(cp, "/", ".")] = map[string]interface{}{"chunk.mem_gb": 1, "chunk.threads": 1}
+			}
+		}
+		b, _ := json.MarshalIndent(ov, "", " ")
+		ovPath := filepath.Join(dir, "overrides.json")
+		os.WriteFile(ovPath, b, 0644)
+		args = append(args, "--overrides="+ovPath)
+	}
 	var relocated map[string]int64
 	relocatedTok := map[string]string{}
 	args = append(args, fc.ExtraArg...)
@@ -318,6 +333,16 @@ func runFlowCase(c *vf.Ctx, fc *flowCase) *flowResult {
 					What: fmt.Sprintf("after the interrupted run the top-level pipeline directory was moved outside the pipestance directory and replaced by a symlink; the restarted mrp removed %d of the %d files lying there, e.g. %s", len(gone), len(relocated), gone[0])})
 			}
 		} else if fc.Vdr != "disable" {
+			if fc.ForceVol {
+				// for the storage oracle every stage call is volatile now
+				for _, pl := range p.Pipelines {
+					for _, cl := range pl.Calls {
+						if p.Stage(cl.Callee) != nil {
+							cl.Volatile = true
+						}
+					}
+				}
+			}
 			res.vdr = vmon.CheckVDR(res.obs, p, res.model, res.report, fc.Vdr, cs.Trace())
 		}
 		// canary beside the pipestance
@@ -979,6 +1004,11 @@ func init() {
 						"vdr:final:write#1:TERM", "vdr:partial:begin#2:INT", "cleanup:vdr_done#1:TERM", "vdr:pipestance:begin#1:TERM",
 						"vdr:remove:chunk_tmp#2:TERM", "loop:begin#4:KILL", "loop:begin#6:KILL", "vdr:partial:write#3:INT", "vdr:remove:join_tmp#1:TERM"}
 					cases[len(cases)-1].Crash = crashes[(i/5)%len(crashes)]
+				}
+				if i%10 == 9 && cases[len(cases)-1].Crash == "" {
+					// volatility forced from outside: mrp --overrides with force_volatile
+					// on the top-level pipeline (inherited by every stage below it)
+					cases[len(cases)-1].ForceVol = true
 				}
 				if i%10 == 7 && modes[i%3] != "post" {
 					// interrupted mid-run, the top-level pipeline directory relocated
